@@ -49,7 +49,7 @@ func (e *Engine) loModel(fr *frame, ins ssa.Instruction, name string, fn *ssa.Fu
 		Q := e.sc.declare("sortQ", arrSort(SI64, SI64))
 		i := e.sc.freshName("si")
 		inr := func(x string) string { return and(app("bvsle", bvLit(0, 64), x), app("bvslt", x, n)) }
-		e.sc.addTagged("sort", fmt.Sprintf("(assert (forall ((%s %s)) %s))", i, SI64, implies(inr(i), and(inr(sel(P, i)), eq(sel(Q, sel(P, i)), i), inr(sel(Q, i)), eq(sel(P, sel(Q, i)), i)))))
+		e.sc.addTagged("perm.sort", fmt.Sprintf("(assert (forall ((%s %s)) %s))", i, SI64, implies(inr(i), and(inr(sel(P, i)), eq(sel(Q, sel(P, i)), i), inr(sel(Q, i)), eq(sel(P, sel(Q, i)), i)))))
 		e.forLeaves(types.NewSlice(et), []pathElem{{field: -1}}, et, func(path []pathElem, suffix, leaf string, lt types.Type) {
 			c := e.comp(types.NewSlice(et), path, suffix, leaf)
 			cur := e.heapGet(heap, c)
@@ -64,11 +64,19 @@ func (e *Engine) loModel(fr *frame, ins ssa.Instruction, name string, fn *ssa.Fu
 			if e.guard != "true" {
 				perm = ite(e.guard, perm, sel(old, at))
 			}
-			e.sc.addTagged("sort", fmt.Sprintf("(assert (forall ((%s %s)) (! %s :pattern (%s))))", r, SI64,
+			e.sc.addTagged("elems.sort", fmt.Sprintf("(assert (forall ((%s %s)) (! %s :pattern (%s))))", r, SI64,
 				implies(inr(r), eq(sel(nw, at), perm)), sel(nw, at)))
+			// the same fact for an arbitrary index (specifications that index the whole slice)
+			pj := e.sc.freshName("sp")
+			inRange := and(app("bvsle", sv.Off, pj), app("bvslt", pj, app("bvadd", sv.Off, n)))
+			permJ := sel(old, app("bvadd", sv.Off, sel(P, app("bvsub", pj, sv.Off))))
+			if e.guard != "true" {
+				permJ = ite(e.guard, permJ, sel(old, pj))
+			}
+			e.sc.addTagged("elems.sort", fmt.Sprintf("(assert (forall ((%s %s)) (! %s :pattern (%s))))", pj, SI64, implies(inRange, eq(sel(nw, pj), permJ)), sel(nw, pj)))
 			j := e.sc.freshName("sj")
 			out := or(app("bvslt", j, sv.Off), app("bvsge", j, app("bvadd", sv.Off, n)))
-			e.sc.addTagged("sort", fmt.Sprintf("(assert (forall ((%s %s)) (! %s :pattern (%s))))", j, SI64, implies(out, eq(sel(nw, j), sel(old, j))), sel(nw, j)))
+			e.sc.addTagged("frame.sort", fmt.Sprintf("(assert (forall ((%s %s)) (! %s :pattern (%s))))", j, SI64, implies(out, eq(sel(nw, j), sel(old, j))), sel(nw, j)))
 			heap[c.key] = e.sc.define("H_"+c.key, c.sort, sto(cur, sv.Arr, nw))
 			if !e.isFresh(sv.Arr) {
 				e.dirty[c.key] = true
@@ -80,8 +88,9 @@ func (e *Engine) loModel(fr *frame, ins ssa.Instruction, name string, fn *ssa.Fu
 		e.sc.binders = append(e.sc.binders, binder{a, SI64}, binder{b, SI64})
 		lessBA := e.scalar(callCB(fv, []Val{Sc{b, SI64}, Sc{a, SI64}})).T
 		e.sc.binders = e.sc.binders[:len(e.sc.binders)-2]
+		e.lastSort = &sortRec{fv: fv, heap: heap.clone(), n: n, reach: reach}
 		rng := and(app("bvsle", bvLit(0, 64), a), app("bvslt", a, b), app("bvslt", b, n))
-		e.sc.addTagged("sort", fmt.Sprintf("(assert (forall ((%s %s) (%s %s)) %s))", a, SI64, b, SI64, implies(and(reach, rng), not(lessBA))))
+		e.sc.addTagged("order.sort", fmt.Sprintf("(assert (forall ((%s %s) (%s %s)) %s))", a, SI64, b, SI64, implies(and(reach, rng), not(lessBA))))
 		// (the stability of SliceStable is not modelled: nothing here relies on it)
 		return nil, reach, true
 	case "github.com/samber/lo.Map":
@@ -171,4 +180,28 @@ func (e *Engine) mapResultArr(c *component, ref string, heap Heap) string {
 	arr := e.sc.declare("loarr_"+c.key, arrSort(SI64, c.leaf))
 	heap[c.key] = e.sc.define("H_"+c.key, c.sort, sto(e.heapGet(heap, c), ref, arr))
 	return arr
+}
+
+
+// sortRec remembers the most recent sort call for the ghost vcSortFact.
+type sortRec struct {
+	fv    FuncVal
+	heap  Heap
+	n     string
+	reach string
+}
+
+// sortFact: the instance, for positions a and b of the sorted range, of the ordering fact of the
+// sort model: if the call was reached and 0 <= a < b < n then the comparator does not put b before a.
+func (e *Engine) sortFact(a, b string) string {
+	r := e.lastSort
+	if r == nil {
+		return "true"
+	}
+	savePure, saveGuard := e.pure, e.guard
+	e.pure, e.guard = true, "true"
+	res := e.execFunction(r.fv.Fn, []Val{Sc{b, SI64}, Sc{a, SI64}}, r.fv.Bind, "true", r.heap.clone())
+	e.pure, e.guard = savePure, saveGuard
+	rng := and(app("bvsle", bvLit(0, 64), a), app("bvslt", a, b), app("bvslt", b, r.n))
+	return implies(and(r.reach, rng), not(e.scalar(res.ret).T))
 }
